@@ -44,8 +44,7 @@ def main(pid, tier, seed, replay_path=None):
                 continue
             out = subprocess.run([dr, "delete", c, str(sc)], stdout=subprocess.PIPE, text=True).stdout
             if "remaining 0 " in out:
-                emptied += 1
-                continue    # nothing remains: the property's 'copy of the data' presupposes remaining trips
+                emptied += 1    # a scenario that excludes EVERY trip is a scenario definition too: the copy has no trip left
             p1 = os.path.join(d, "q%04d_%d_a.case" % (ci, sc))
             p2 = os.path.join(d, "q%04d_%d_b.case" % (ci, sc))
             with open(p1, "w") as f:
@@ -94,7 +93,7 @@ def main(pid, tier, seed, replay_path=None):
                theorems=po["theorems"], print_assumptions=po["assumptions"], open_statements=cl_open(pid),
                evaluations=evals, distinct_nontrivial=len(nontriv),
                rule="every route/accessibility operation under scenarios 2 (service subset) and 3 (random only/except lists) is run on the implementation on the original dataset and on the copy produced by the extracted Coq functions delete_excluded/all_inclusive; objective fields compared; non-trivial = at least one trip removed and a successful answer",
-               samples=samples or [dict(note="none")], pairs=len(pairs), skipped_nothing_remains=emptied,
+               samples=samples or [dict(note="none")], pairs=len(pairs), pairs_where_nothing_remains=emptied,
                pair_disagreements=len(fails), correspondence_disagreements=len(diffs), exhaustive=False)
     cl.write_evidence(pid, tier, seed, "proof", cov, ["structural half (connection-set equality) proved; equality of whole answers is exercised on the implementation, see open_statements"],
                       time.time() - t0, len(viol))
